@@ -99,6 +99,8 @@ KindsAll == {"pipe", "valve", "flow_control", "press_control", "pump", "heat_exc
 KindsCore == {"pipe", "valve", "flow_control", "press_control", "heat_consumer", "circ_pump_pressure"}
 KindsPipe == {"pipe"}
 KindsGas == {"pipe", "valve", "compressor", "flow_control", "press_control"}
+KindsPassive == {"pipe", "valve", "heat_exchanger"}
+NKindsFeed == {<<"ext_grid", "p">>, <<"ext_grid", "pt">>, <<"sink", "">>}
 KindsCtl == {"pipe", "press_control", "flow_control", "circ_pump_mass"}
 NKindsAll == {<<"ext_grid", "p">>, <<"ext_grid", "t">>, <<"sink", "">>}
 NKindsTherm == {<<"ext_grid", "p">>, <<"ext_grid", "t">>, <<"ext_grid", "pt">>, <<"sink", "">>}
